@@ -354,16 +354,105 @@ def strategy():
     )
 
 
+def run_fuzz_job(job):
+    """thorough tier only: atheris/libFuzzer campaign in a child process"""
+    import json
+    import os
+    import shutil
+    import subprocess
+    import sys
+
+    from vlib import build
+
+    g = _gt()
+    out = pbt.new_job_result()
+    workdir = os.path.join(build.BUILD_ROOT, "fuzz", "c17-%d-%d" % (os.getpid(), job["seed"]))
+    shutil.rmtree(workdir, ignore_errors=True)
+    os.makedirs(os.path.join(workdir, "corpus"))
+    # seed corpus: saves of generated specs (half of the shards start empty)
+    seeds = []
+
+    def collect(case):
+        res = pbt.CaseResult()
+        try:
+            r = specmod.validate(case["spec"])
+            B = irbuild.build(g, case["spec"], r, use_how=False)
+            buf = io.BytesIO()
+            B.ir.save_protobuf_file(buf)
+            seeds.append(buf.getvalue())
+        except Exception:  # noqa
+            pass
+        return res
+
+    if job.get("corpus", True):
+        pbt.run_hypothesis(strategy(), collect, prefix=ID, n_examples=40, seed=job["seed"], max_shrink_evals=0)
+        for i, data in enumerate(seeds):
+            with open(os.path.join(workdir, "corpus", "seed%03d" % i), "wb") as f:
+                f.write(data)
+    env = dict(os.environ)
+    p = subprocess.run(
+        [sys.executable, "-m", "vlib.fuzz_c17", workdir, str(job["runs"]), str(job["seed"])],
+        cwd=build.VERIF_ROOT, env=env, capture_output=True, text=True, timeout=job.get("timeout", 3600),
+    )
+    stats = {}
+    try:
+        with open(os.path.join(workdir, "stats.json")) as f:
+            stats = json.load(f)
+    except Exception:  # noqa
+        out["errors"].append("fuzz campaign left no stats (exit %s): %s" % (p.returncode, (p.stdout + p.stderr)[-1500:]))
+        return out
+    out["evaluations"] = stats.get("execs", 0)
+    out["nontrivial_count"] = stats.get("accepted", 0) + stats.get("rejected:gtirb", 0)
+    out["counters"] = {"fuzz:execs": stats.get("execs", 0), "fuzz:accepted": stats.get("accepted", 0),
+                       "fuzz:rejected:gtirb": stats.get("rejected:gtirb", 0), "fuzz:rejected:protobuf": stats.get("rejected:protobuf", 0),
+                       "fuzz:seed-corpus-files": len(seeds)}
+    fails = {}
+    try:
+        with open(os.path.join(workdir, "failures.jsonl")) as f:
+            for line in f:
+                d = json.loads(line)
+                cur = fails.get(d["bucket"])
+                if cur is None or len(d["hex"]) < len(cur["hex"]):
+                    fails[d["bucket"]] = d
+    except OSError:
+        pass
+    for bucket, d in sorted(fails.items()):
+        out["failures"].append({"bucket": "fuzz:" + bucket, "case": {"raw": d["hex"]}, "detail": d["detail"], "hits": 1})
+    shutil.rmtree(workdir, ignore_errors=True)
+    return out
+
+
+def run_raw(case):
+    """replay of a fuzz finding: one raw file"""
+    g = _gt()
+    res = pbt.CaseResult()
+    data = bytes.fromhex(case["raw"])
+    expect = "ValueError" if data[:5] != b"GTIRB" or len(data) < 8 or data[7] != refmsg.proto_version() else None
+    Judge(g, res).judge(data, "fuzz input", expect=expect)
+    res.failures = [("fuzz:" + b, d) for b, d in res.failures]
+    return res
+
+
 def run_job(job):
+    if job.get("kind") == "fuzz":
+        return run_fuzz_job(job)
     return pbt.run_hypothesis(strategy(), run_case, prefix=ID, n_examples=job["n"], seed=job["seed"],
                               max_shrink_evals=job.get("shrink", 60))
 
 
 def replay(doc):
+    if "raw" in doc["case"]:
+        return run_raw(doc["case"])
     return run_case(doc["case"])
 
 
 def jobs(tier, seed):
     n, shards = (48, 8) if tier == "quick" else (1600, 16)
-    return [{"name": "seeds-%d" % k, "kind": "seeds", "n": n // shards, "seed": seed * 1000 + 170 + k,
-             "shrink": 60 if tier == "quick" else 300} for k in range(shards)]
+    out = [{"name": "seeds-%d" % k, "kind": "seeds", "n": n // shards, "seed": seed * 1000 + 170 + k,
+            "shrink": 60 if tier == "quick" else 300} for k in range(shards)]
+    if tier == "thorough":
+        # coverage-guided campaign: 8 processes, half of them from an empty corpus
+        for k in range(8):
+            out.append({"name": "fuzz-%d" % k, "kind": "fuzz", "runs": 60000, "seed": seed * 1000 + 700 + k,
+                        "corpus": k % 2 == 0, "timeout": 5400})
+    return out
